@@ -4,6 +4,11 @@
    mode = "bead": csg::BeadList::Generate(top, select): `select` is a pattern on the
      bead type, or, when it starts with "name:", the rest is a pattern on the bead
      name; the result is exactly the set of beads that match.
+   mode = "sphere": csg::BeadList::GenerateInSphericalSubvolume(top, select, ref, radius): the
+     same selection, restricted to the beads whose minimum-image distance from `ref` is at
+     most `radius`.  Bead positions, the cubic box edge and the reference points are lattice
+     integers; radii are given as R2 = 2 r^2 with R2 odd, so that no bead lies exactly on the
+     sphere (d^2 is an integer).  BigR2 is larger than the box diagonal: pure selection clause.
    mode = "prop": tools::Property::Select("seg1.seg2"): level by level, the children
      whose name matches the segment pattern.
 
@@ -16,6 +21,12 @@ CONSTANTS Beads,     \* sequence of [type, name], both character sequences
           Prefixes,  \* set of character sequences put in front of a pattern
           PAlpha,    \* pattern alphabet
           SelLen,    \* maximal pattern length for bead selections
+          BeadPos,   \* sequence of <<x, y, z>>, one per bead, lattice integers inside the box
+          BoxL,      \* edge of the cubic box
+          Refs,      \* reference points
+          R2s,       \* radii as 2 r^2 (odd) for the geometric clause
+          BigR2,     \* 2 r^2 of a radius larger than the box diagonal
+          GeoLen,    \* pattern length for the geometric clause (prefixes: none and "name:")
           Tree,      \* sequence of [n |-> name, k |-> sequence of names]
           SegLen,    \* maximal segment length of a property filter
           Emit
@@ -28,19 +39,31 @@ SpecBeads(sel) ==
      IF IsByName(sel) THEN SpecMatch(SubSeq(sel, 6, Len(sel)), Beads[i].name)
      ELSE SpecMatch(sel, Beads[i].type)}
 
+\* squared minimum-image distance in the cubic box: nearest of the periodic images per component
+Sq(x) == x * x
+MinSq(d) == LET S == {Sq(d + k * BoxL) : k \in -2..2} IN CHOOSE m \in S : \A n \in S : m <= n
+MinImgD2(a, b) == MinSq(b[1] - a[1]) + MinSq(b[2] - a[2]) + MinSq(b[3] - a[3])
+SpecSphere(sel, ref, r2) == {i \in SpecBeads(sel) : 2 * MinImgD2(ref, BeadPos[i]) < r2}
+
 \* filter = sequence of 1 or 2 segments; result = set of paths <<i>> / <<i, j>>
 SpecProps(f) ==
   LET lvl1 == {i \in 1..Len(Tree) : SpecMatch(f[1], Tree[i].n)}
   IN IF Len(f) = 1 THEN {<<i>> : i \in lvl1}
      ELSE UNION {{<<i, j>> : j \in {jj \in 1..Len(Tree[i].k) : SpecMatch(f[2], Tree[i].k[jj])}} : i \in lvl1}
 
-VARIABLES mode, sel, flt
-vars == <<mode, sel, flt>>
+VARIABLES mode, sel, flt, geo
+vars == <<mode, sel, flt, geo>>
+NoGeo == [ref |-> <<0, 0, 0>>, r2 |-> 0]
 
 Segs == SeqsUpTo(PAlpha, SegLen) \ {<<>>}
-Init == \/ /\ mode = "bead" /\ flt = <<>>
+Init == \/ /\ mode = "sphere" /\ flt = <<>>
+           /\ \/ /\ sel \in {pre \o pat : pre \in Prefixes, pat \in SeqsUpTo(PAlpha, SelLen)}
+                 /\ geo \in [ref : {CHOOSE r \in Refs : TRUE}, r2 : {BigR2}]
+              \/ /\ sel \in {pre \o pat : pre \in {<<>>, NamePrefix}, pat \in SeqsUpTo(PAlpha, GeoLen)}
+                 /\ geo \in [ref : Refs, r2 : R2s]
+        \/ /\ mode = "bead" /\ flt = <<>> /\ geo = NoGeo
            /\ sel \in {pre \o pat : pre \in Prefixes, pat \in SeqsUpTo(PAlpha, SelLen)}
-        \/ /\ mode = "prop" /\ sel = <<>>
+        \/ /\ mode = "prop" /\ sel = <<>> /\ geo = NoGeo
            /\ flt \in {<<a>> : a \in Segs} \cup {<<a, b>> : a, b \in Segs}
 Next == UNCHANGED vars
 Spec == Init /\ [][Next]_vars
@@ -48,6 +71,9 @@ Spec == Init /\ [][Next]_vars
 \* sanity of the meaning itself
 ByNameIgnoresType == (mode = "bead" /\ IsByName(sel)) =>
    \A i, j \in 1..Len(Beads) : Beads[i].name = Beads[j].name => (i \in SpecBeads(sel) <=> j \in SpecBeads(sel))
+\* a radius beyond the box diagonal makes the subvolume the whole box
+BigIsAll == (mode = "sphere" /\ geo.r2 = BigR2) => SpecSphere(sel, geo.ref, geo.r2) = SpecBeads(sel)
+SphereIsSubset == mode = "sphere" => SpecSphere(sel, geo.ref, geo.r2) \subseteq SpecBeads(sel)
 StarSelectsAll == /\ SpecMatch(<<"*">>, <<>>)
                   /\ \A i \in 1..Len(Beads) : SpecMatch(<<"*">>, Beads[i].type)
 
@@ -56,10 +82,13 @@ SetToSeq(S) == LET RECURSIVE R(_)
                IN R(S)
 
 \* the fixed bead list and property tree, printed once for the harness
-ASSUME PrintT(ToJson([beads |-> Beads, tree |-> Tree]))
+ASSUME PrintT(ToJson([beads |-> Beads, tree |-> Tree, pos |-> BeadPos, box |-> BoxL]))
 
 Vector == Emit => PrintT(ToJson(
-   IF mode = "bead"
+   IF mode = "sphere"
+   THEN [mode |-> mode, sel |-> sel, byname |-> IsByName(sel), ref |-> geo.ref, r2 |-> geo.r2,
+         ids |-> SetToSeq(SpecSphere(sel, geo.ref, geo.r2))]
+   ELSE IF mode = "bead"
    THEN [mode |-> mode, sel |-> sel, byname |-> IsByName(sel), ids |-> SetToSeq(SpecBeads(sel))]
    ELSE [mode |-> mode, flt |-> flt, paths |-> SetToSeq(SpecProps(flt))]))
 =============================================================================
